@@ -114,6 +114,17 @@ def family(tier):
             continue
         for k in (1, 2, 3):
             out.append(("thresh", k, list(subs)))
+    # constants in every position next to sub-policies over *distinct* keys (no key counted twice)
+    D = ("key", "D")
+    xs = [A, ("thresh", 2, [A, B]), ("thresh", 2, [A, B, C]), ("thresh", 3, [A, B, C]), ("thresh", 1, [A, B])]
+    for x in xs:
+        inners = []
+        for cst in (F_, T_):
+            inners += [("thresh", 2, [cst, x]), ("thresh", 2, [x, cst]), ("thresh", 1, [cst, x]), ("thresh", 1, [x, cst]),
+                       ("thresh", 2, [cst, x, O5]), ("thresh", 3, [cst, O5, x])]
+        for inner in inners:
+            out += [("thresh", 1, [inner, D]), ("thresh", 2, [inner, D]), ("thresh", 1, [D, inner]), ("thresh", 2, [inner, D, O9]),
+                    ("thresh", 1, [inner, ("thresh", 2, [D, O9])])]
     # a few deeper ones
     d2 = ("thresh", 2, [("thresh", 1, [A, ("thresh", 2, [B, C])]), ("thresh", 2, [("thresh", 2, [A, B]), C]), O5])
     out += [d2, ("thresh", 1, [d2, T_]), ("thresh", 2, [d2, F_, A]), ("thresh", 3, [("thresh", 1, [("thresh", 1, [A, B]), C]), B, ("thresh", 2, [("thresh", 2, [A, B]), C])])]
